@@ -52,6 +52,7 @@ type World struct {
 	keyMemo    map[ssa.Value]string
 	escMemo    map[ssa.Value]bool
 	stableMemo map[string]bool
+	copierMemo map[*ssa.Function]string
 	factMemo   map[*ssa.Function]*funcFacts
 	dead       map[edgeKey]bool
 	keyDepth   int
